@@ -3,6 +3,7 @@ from props import idfam
 
 def extra(rep, repo, registry, known_open):
     idfam.sweep(rep, "C02", 400 if rep.tier == "quick" else 12000)
+    idfam.verdict_sweep(rep, 90000 if rep.tier == "quick" else 600000)
 
 
 def replay(payload, path):
